@@ -270,4 +270,55 @@ PROPS["C13"] = {
                   "after a successful refresh and for the lock release: known findings in KNOWN_FINDINGS.txt (deliberate upstream behaviour).",
 }
 
+OIDC_ASSUME = ["go-oidc / go-jose (signature against the issuer's key set with an allowed algorithm, issuer and expiry checks) are a modelled "
+               "library: a token carries the verdict sig_ok, decided in the driver by construction (right key + RS256/ES256); nbf is not modelled",
+               "claims are typed JSON with integer numbers; strings inside nested arrays/objects avoid characters encoding/json escapes"]
+PROPS["C04"] = {
+    "drivers": [MAIN],
+    "rule": "7 provider configurations (default with an extra audience, custom audience claim, allow-unverified, custom e-mail claim, discovery, "
+            "profile endpoint, skip-issuer) x ~40 tokens varying one clause at a time from a valid baseline (key/alg: other key, alg none, "
+            "HS256 keyed with the public key; issuer; audience string/list/extra/wrong/empty list/number/object/list with number/null/"
+            "absent; expiry; email_verified true/false/absent/'false'/0/1/'true'/garbage; claim types) plus combinations, each on all three "
+            "entry paths through the real provider (Redeem, RefreshSession, CreateSessionFromToken): the resulting identity (user, e-mail, "
+            "groups, preferred username) or refusal is compared with the model; non-trivial = all",
+    "assumptions": OIDC_ASSUME,
+    "trusted_base": ["token construction labels in the driver; JWTs signed with the Go standard library"],
+    "level_text": "c04_verified (verification => signature, issuer, expiry and audience membership), c04_callback / c04_refresh / c04_bearer (a "
+                  "session on each entry path only from a verified token; a refresh response without ID token keeps the old identity), "
+                  "c04_claims (fields = coerced configured claims; e-mail not marked unverified), c04_token_first / "
+                  "c04_profile_only_if_missing are proved on the Gallina model of verifier.go / provider_data.go / claim_extractor.go / "
+                  "oidc.go; compared with the real provider on the token matrix on every run.",
+    "level_note": "go-oidc and go-jose are modelled, not verified.",
+}
+PROPS["C05"] = {
+    "drivers": [MAIN],
+    "rule": "two overlapping logins per browser x provider behaviours {echo the hashed nonce, the other login's, empty, absent, null, the raw "
+            "nonce, a number, a prefix, case-flipped} x code-challenge method {none, S256, plain} x skip-nonce x csrf-per-request on the real "
+            "proxy with an in-memory provider that records the verifier presented at redemption; the CSRF cookie is decrypted with the "
+            "standard library to obtain the raw nonces and verifier for the leak scan and the challenge check; non-trivial = all",
+    "assumptions": OIDC_ASSUME + ["SHA-256 modelled as a function; freshness of crypto/rand is an assumption (the run checks distinctness of "
+                                  "what it observed)"],
+    "trusted_base": ["the in-memory provider"],
+    "level_text": "c05_nonce, c05_missing_nonce, c05_raw_nonce (validation with nonce checking passes only if the ID token's nonce claim equals "
+                  "the hash of this login's stored nonce; absent/null/empty/raw values fail), c05_verifier_shape (128 unreserved characters "
+                  "from the regenerated 96 random bytes, within RFC 7636's 43..128), c05_verifier_fresh (injective in the randomness), "
+                  "c05_challenge are proved on the Gallina models; nonce acceptance is compared with the real callback on every run.",
+    "level_note": "_partial: secrecy of raw nonces / verifier (last sentence) is checked by a leak scan of everything sent to the browser, not "
+                  "by a theorem.",
+}
+PROPS["C14"] = {
+    "drivers": [dict(MAIN, timeout=3000)],
+    "rule": "every identity-provider call position of the login (token endpoint, profile endpoint for a missing claim and for email_verified, "
+            "key retrieval), bearer (key retrieval) and refresh (token endpoint; expired and invalid old sessions) flows x 16 response kinds "
+            "(5xx, 4xx, connection reset, timeout, empty body, truncated JSON, non-JSON, JSON array, missing id_token / access_token, "
+            "id_token of wrong type / garbage, oversized body, wrongly typed expires_in) x 13 wrongly typed claims, on both stores; the three "
+            "provider entry paths with a failing profile endpoint are compared with the model; non-trivial = all",
+    "assumptions": OIDC_ASSUME + ["'slow beyond timeout' is injected as a context-deadline error from the transport"],
+    "trusted_base": ["the in-memory provider's fault injection"],
+    "level_text": "c14_no_id_token, c14_unverified, c14_audience_wrong_type, c14_profile_failure, c14_refresh_failure are proved on the Gallina "
+                  "models (Oidc.v, Refresh.v); oracles on the real proxy check that no session is created or extended at any faulted position "
+                  "and that handling does not panic, on every run.",
+    "level_note": "transport-level behaviour (timeouts, resets) is exercised, not modelled.",
+}
+
 NOT_APPLICABLE = {}
